@@ -633,5 +633,5 @@ def negative_builds(res, rng):
 
 
 def gen_cases(tier, seed):
-    n = 300 if tier == "quick" else 5000
+    n = 300 if tier == "quick" else 16000
     return [{"idx": i, "seed": seed, "cost": 1} for i in range(n)]
